@@ -484,6 +484,7 @@ def tlc_validate(ctx, hdr, descs, sdescs, recs, tag):
                 heap="12g", timeout=3000, tag=tag)
     bad, notfirst, checked = [], [], None
     ctx.tlc_notes = getattr(ctx, "tlc_notes", [])
+    nbad0 = vlib.count_bad(r["out"])
     for l in r["printed"]:
         m = re.match(r'<<"NOTE", (\d+), "([^"]*)">>', l)
         if m:
@@ -501,6 +502,8 @@ def tlc_validate(ctx, hdr, descs, sdescs, recs, tag):
             raise vlib.MachineryError("Values.StableSortPerm contradicts IsStableSorted: " + l)
     if checked is None or r["error"] or r["rc"] != 0:
         raise vlib.MachineryError("TLC validation failed (rc=%s)\n%s" % (r["rc"], r["out"][-4000:]))
+    if nbad0 != len(bad):
+        raise vlib.MachineryError("C11Trace: TLC printed %d rejected records but %d were understood" % (nbad0, len(bad)))
     ctx.states += r["states"]
     ctx.transitions += r["transitions"]
     return bad, checked, notfirst
